@@ -396,7 +396,7 @@ func execConv(op string, a []string) string {
 				k, _ = ecdsa.GenerateKey([]int{iana.AlgorithmES256, iana.AlgorithmES384, iana.AlgorithmES512}[i%3])
 			}
 			k.SetKid(kidOf(i))
-			if i == n-1 {
+			if i == n-1 && (n > 1 || opsStyle%2 == 0) { // (a set of one keeps its kid in half of the cases)
 				delete(k, iana.KeyParameterKid)
 			}
 			style := opsStyle
